@@ -14,10 +14,11 @@ VARIABLES D,      \* host -> durable image according to the saves that completed
           dead,   \* host -> crashed and not yet restarted
           cand,   \* host -> images the restart may legitimately find (D + saves in flight at the crash)
           tail,   \* host -> D + all saves in flight
+          solo,   \* the shard of this trace has one voting member (the others are non-voting)
           l, bad, drift, cnt
 
 Trace == ndJsonDeserialize(TraceFile)
-vars == <<D, W, dead, cand, tail, l, bad, drift, cnt>>
+vars == <<D, W, dead, cand, tail, solo, l, bad, drift, cnt>>
 H == 1..5
 
 Fresh(x) == [h \in H |-> x]
@@ -29,6 +30,7 @@ RECURSIVE Tolds(_, _, _, _)
 Tolds(w, self, ms, k) == IF k > Len(ms) THEN w
                          ELSE Tolds(IF ms[k].from = self THEN Told(w, self, ms[k]) ELSE w, self, ms, k + 1)
 
+CommitAhead(d, self, ms) == {ms[k].commit : k \in {j \in 1..Len(ms) : ms[j].from = self /\ ~CommitCovered(d, ms[j])}}
 Uncovered(d, self, ms) == {ms[k].type : k \in {j \in 1..Len(ms) : ms[j].from = self /\ ~MsgCovered(d, self, ms[j])}}
 
 BootImage(ev) == [term |-> ev.term, vote |-> ev.vote, commit |-> ev.commit,
@@ -36,8 +38,8 @@ BootImage(ev) == [term |-> ev.term, vote |-> ev.vote, commit |-> ev.commit,
                   log |-> ev.terms, ss |-> ev.ssindex, ssterm |-> ev.ssterm]
 
 Init == /\ D = Fresh(DInit) /\ W = Fresh(WInit) /\ dead = Fresh(FALSE) /\ cand = Fresh({DInit})
-        /\ tail = Fresh(DInit) /\ l = 1 /\ bad = {} /\ drift = {}
-        /\ cnt = [save |-> 0, send |-> 0, implied |-> 0, crash |-> 0, boot |-> 0, final |-> 0, apply |-> 0]
+        /\ tail = Fresh(DInit) /\ solo = FALSE /\ l = 1 /\ bad = {} /\ drift = {}
+        /\ cnt = [save |-> 0, send |-> 0, implied |-> 0, crash |-> 0, boot |-> 0, final |-> 0, apply |-> 0, solosend |-> 0]
 
 Next ==
   /\ l <= Len(Trace)
@@ -45,37 +47,42 @@ Next ==
   /\ LET ev == Trace[l] IN
      CASE ev.ev = "Init" ->
             /\ D' = Fresh(DInit) /\ W' = Fresh(WInit) /\ dead' = Fresh(FALSE) /\ cand' = Fresh({DInit})
-            /\ tail' = Fresh(DInit) /\ UNCHANGED <<bad, drift, cnt>>
+            /\ tail' = Fresh(DInit) /\ solo' = (ev.voters = 1) /\ UNCHANGED <<bad, drift, cnt>>
        [] ev.ev = "Save" /\ ~ev.dead /\ ~ev.err ->
             /\ D' = [D EXCEPT ![ev.h] = ApplyUpdates(@, ev.uds, 1)]
             /\ W' = [W EXCEPT ![ev.h] = Withdraws(@, ev.uds, 1)]
             /\ cnt' = [cnt EXCEPT !.save = @ + 1]
-            /\ UNCHANGED <<dead, cand, tail, bad, drift>>
+            /\ UNCHANGED <<solo, dead, cand, tail, bad, drift>>
        [] ev.ev = "Save" /\ ev.dead /\ ~ev.err ->
             \* in flight at the crash instant (or issued by the dying process): may or may not be durable
             LET x == ApplyUpdates(tail[ev.h], ev.uds, 1) IN
             /\ tail' = [tail EXCEPT ![ev.h] = x]
             /\ cand' = [cand EXCEPT ![ev.h] = @ \cup {x}]
-            /\ UNCHANGED <<D, W, dead, bad, drift, cnt>>
+            /\ UNCHANGED <<solo, D, W, dead, bad, drift, cnt>>
        [] ev.ev = "Send" ->
-            LET u == Uncovered(D[ev.h], ev.h, ev.msgs) IN
-            /\ bad' = IF u = {} THEN bad ELSE Flag(ev, "PersistBeforeSend", u)
+            LET u == Uncovered(D[ev.h], ev.h, ev.msgs)
+                a == IF solo THEN CommitAhead(D[ev.h], ev.h, ev.msgs) ELSE {}
+                b1 == IF u = {} THEN bad ELSE Flag(ev, "PersistBeforeSend", u)
+            IN
+            /\ bad' = IF a = {} \/ (\E x \in b1 : x[1] = ev.t /\ x[3] = "CommitToldBeforeDurable") THEN b1
+                       ELSE b1 \cup {<<ev.t, ev.i, "CommitToldBeforeDurable", a>>}
             /\ W' = [W EXCEPT ![ev.h] = Tolds(@, ev.h, ev.msgs, 1)]
             /\ cnt' = [cnt EXCEPT !.send = @ + 1,
+                                  !.solosend = @ + (IF solo THEN 1 ELSE 0),
                                   !.implied = @ + Cardinality({k \in 1..Len(ev.msgs) : Implies(ev.msgs[k])})]
-            /\ UNCHANGED <<D, dead, cand, tail, drift>>
+            /\ UNCHANGED <<solo, D, dead, cand, tail, drift>>
        [] ev.ev = "Apply" /\ ev.shard = 1 /\ ~dead[ev.h] ->
             \* a replica hands an entry to the user state machine only after it made the entry durable
             \* itself (engine.go: entries that are still to be saved are applied after SaveRaftState)
             /\ bad' = IF ApplyCovered(D[ev.h], ev.last) THEN bad ELSE Flag(ev, "AppliedBeforeSaved", {ev.h})
             /\ cnt' = [cnt EXCEPT !.apply = @ + 1]
-            /\ UNCHANGED <<D, W, dead, cand, tail, drift>>
+            /\ UNCHANGED <<solo, D, W, dead, cand, tail, drift>>
        [] ev.ev = "Crash" ->
             /\ dead' = [dead EXCEPT ![ev.h] = TRUE]
             /\ cand' = [cand EXCEPT ![ev.h] = {D[ev.h]}]
             /\ tail' = [tail EXCEPT ![ev.h] = D[ev.h]]
             /\ cnt' = [cnt EXCEPT !.crash = @ + 1]
-            /\ UNCHANGED <<D, W, bad, drift>>
+            /\ UNCHANGED <<solo, D, W, bad, drift>>
        [] ev.ev = "Boot" ->
             LET r == BootImage(ev)
                 ok == RestartMonotone(r, D[ev.h], W[ev.h])
@@ -89,15 +96,16 @@ Next ==
             /\ cand' = [cand EXCEPT ![ev.h] = {r}]
             /\ tail' = [tail EXCEPT ![ev.h] = r]
             /\ cnt' = [cnt EXCEPT !.boot = @ + 1]
+            /\ UNCHANGED solo
        [] ev.ev = "Final" ->
             /\ bad' = IF ev.ok /\ Len(ev.missing) > 0
                         THEN Flag(ev, "CompletedNotDurable", {ev.missing[k] : k \in 1..Len(ev.missing)}) ELSE bad
             /\ cnt' = [cnt EXCEPT !.final = @ + (IF ev.ok THEN 1 ELSE 0)]
-            /\ UNCHANGED <<D, W, dead, cand, tail, drift>>
+            /\ UNCHANGED <<solo, D, W, dead, cand, tail, drift>>
        [] ev.ev = "Panic" ->
             /\ bad' = Flag(ev, "Panic", {ev.msg})
-            /\ UNCHANGED <<D, W, dead, cand, tail, drift, cnt>>
-       [] OTHER -> UNCHANGED <<D, W, dead, cand, tail, bad, drift, cnt>>
+            /\ UNCHANGED <<solo, D, W, dead, cand, tail, drift, cnt>>
+       [] OTHER -> UNCHANGED <<solo, D, W, dead, cand, tail, bad, drift, cnt>>
 
 Spec == Init /\ [][Next]_vars
 Report == IF l = Len(Trace) + 1
